@@ -126,9 +126,13 @@ class Cfg:
             kw["transform"] = transforms.ZOO[self.transform]
         return kw
 
+    _updates = [0]
+
     def update_kwargs(self):
+        Cfg._updates[0] += 1
         kw = dict(merge_strategy=self.strategy, disable_infer_genes=self.disG, disable_infer_transcripts=self.disT,
-                  transcript_key=self.tkey, gene_key=self.gkey, subfeature=self.sub, verbose=False)
+                  transcript_key=self.tkey, gene_key=self.gkey, subfeature=self.sub,
+                  verbose=VERBOSE_CYCLE[Cfg._updates[0] % len(VERBOSE_CYCLE)])
         if self.force:
             kw["force_merge_fields"] = list(self.force)
         sp = self.idspec.py()
@@ -169,11 +173,26 @@ def cmd_update(lines, cfg, checklines=10):
     return "update %d %s %s" % (checklines, enc_list(lines), cfg.words())
 
 
+# `verbose` only switches progress / debug output on; it must not change what is stored.  Imports run by the harness take
+# it from this cycle (chosen by the content of the input, so that the same input is always imported the same way)
+VERBOSE_CYCLE = [False, False, True, False, "debug", False, False]
+
+
+def verbose_for(path):
+    import zlib
+    try:
+        with open(path, "rb") as fh:
+            return VERBOSE_CYCLE[zlib.crc32(fh.read()) % len(VERBOSE_CYCLE)]
+    except (OSError, TypeError):
+        return False
+
+
 def py_create(path, cfg, dbfn=":memory:", checklines=10, supplied=None, force=True):
     """returns (db | None, reply text like the model's)"""
     import gffutils
     import warnings
     kw = cfg.create_kwargs()
+    kw["verbose"] = verbose_for(path)
     if supplied is not None:
         kw["dialect"] = copy.deepcopy(supplied)
     try:
